@@ -51,14 +51,13 @@ def timetable_checks(specs, durs, starts, perm, scope, tol=0.0, cycles=None, con
         (`sc.documented_rule`, a fixed reference copy) declares commuting: that is the class of the C11 known finding
         (no dependency edge, and conflict edges are recorded only against the members of the cycle at the moment a
         candidate is examined -- so it also contains pairs that were candidates in the same round);
-      * two instructions of one cycle must never overlap;
-      * they truly commute but the DOCUMENTED rule does not declare them commuting (X / RX on one qubit, ...): j must still
-        not start before i has finished (clause dep_respected with the reference rule; evaluated after the physical clauses).
+      * two instructions of one cycle must never overlap.
+    The documented rule is consulted ONLY to delimit the recorded known-finding classes on a tree without the repairs
+    (never to demand an order between gates that commute physically).
     Scope "full" evaluates ordering for every non-commuting pair and overlap for every pair.
     `cons`: the constraint descriptors the Scheduler was built with (None = default).  The overlap clauses are required when
     `qubit_constraint` is among them (first, last, anywhere); without it only the ordering of non-commuting pairs, the
-    earliest start and the makespan are required (C11.timetable_cons_any), and members of one cycle must respect every
-    constraint function of the list."""
+    earliest start and the makespan are required (C11.timetable_cons_any)."""
     n = len(specs)
     if len(starts) != n:
         return f"{len(starts)} start times for {n} instructions"
@@ -84,7 +83,8 @@ def timetable_checks(specs, durs, starts, perm, scope, tol=0.0, cycles=None, con
             commute = bool(perm) and sc.truly_commute(a, b)
             same_cycle = i in where and where.get(i) == where.get(j)
             if not sc.cons_has_qubit(cons):
-                if not commute and not (scope == "covered" and declared) and starts[j] < starts[i] + durs[i] - tol:
+                if not commute and not (scope == "covered" and declared and (sc.self_commuting_names() is None or sc.len_bound() is None)) \
+                        and starts[j] < starts[i] + durs[i] - tol:
                     return (f"instruction {j} ({b[0]} {b[1]} {b[2]}) starts at {starts[j]} before the earlier instruction {i} "
                             f"({a[0]} {a[1]} {a[2]}; start {starts[i]}, duration {durs[i]}), with which it does not commute, "
                             "has finished")
@@ -92,8 +92,9 @@ def timetable_checks(specs, durs, starts, perm, scope, tol=0.0, cycles=None, con
             if same_cycle and overlap(i, j):
                 return (f"instructions {i} and {j} are in one cycle, share qubit(s) {sorted(used[i] & used[j])} and overlap")
             if not commute:
-                if scope == "covered" and declared:
-                    continue        # C05 known class: declared commuting although the matrices do not commute
+                if scope == "covered" and declared and (sc.self_commuting_names() is None or sc.len_bound() is None):
+                    continue        # C05 known classes, only on a tree WITHOUT the repairs: declared commuting although the
+                                    # matrices do not commute (same-name non-self-commuting families / targets-only TOFFOLI)
                 if starts[j] < starts[i] + durs[i] - tol:
                     return (f"instruction {j} ({b[0]} {b[1]} {b[2]}) starts at {starts[j]} before the earlier instruction {i} "
                             f"({a[0]} {a[1]} {a[2]}; start {starts[i]}, duration {durs[i]}), with which it does not commute, "
@@ -101,22 +102,9 @@ def timetable_checks(specs, durs, starts, perm, scope, tol=0.0, cycles=None, con
             else:
                 if scope == "covered" and declared and not sc.conflict_fix_flag():
                     continue        # C11 known class: overlap of a pair declared commuting (tree without the repair)
-                if perm and not declared and starts[j] < starts[i] + durs[i] - tol:
-                    # clause dep_respected with the DOCUMENTED rule (fixed reference copy): the pair commutes physically,
-                    # but the rule does not relate the two gates, so the dependency i -> j has to be there
-                    return (f"instruction {j} ({b[0]} {b[1]} {b[2]}) starts at {starts[j]} before the earlier instruction {i} "
-                            f"({a[0]} {a[1]} {a[2]}; start {starts[i]}, duration {durs[i]}) has finished; the documented rule "
-                            "does not declare the two commuting (clause dep_respected; the two gates commute physically)")
                 if overlap(i, j):
                     return (f"instructions {i} and {j} share qubit(s) {sorted(used[i] & used[j])} and overlap: "
                             f"[{starts[i]}, {starts[i] + durs[i]}) and [{starts[j]}, {starts[j] + durs[j]})")
-    for c in (cycles or []):
-        for p in range(len(c)):
-            for q in range(p + 1, len(c)):
-                for f in (cons or []):
-                    if not sc.cons_verdict(f, specs, c[q], c[p]):
-                        return (f"instructions {c[p]} and {c[q]} are in one cycle ({cycles}) although the constraint function {f} of "
-                                f"{cons} forbids {c[q]} next to {c[p]}")
     if max(s + d for s, d in zip(starts, durs)) > sum(durs) + tol:
         return f"makespan {max(s + d for s, d in zip(starts, durs))} exceeds sequential duration {sum(durs)}"
     return None
@@ -339,7 +327,11 @@ class C11(PropertyCheck):
                 continue
             got = [sc.exact_num(x) for x in starts]
             if m["starts"] != got:
-                res.disagree(inp, m["starts"], got, "start times (numerators over 2^20)", w)
+                note = ""
+                if perm and cyc:
+                    from .c05 import order_note
+                    note = order_note(specs, cyc)
+                res.disagree(inp, m["starts"], got, "start times (numerators over 2^20)" + note, w)
             elif m["cycles"] != cyc:
                 res.disagree(inp, m["cycles"], cyc, "cycles list", w)
             elif shuf is not None and m["used"] != len(shuf):
